@@ -1,5 +1,6 @@
 /- Driver/Dsf.lean — DSF files with an ID3 tag at the metadata pointer: save, delete, walk, read -/
 import MutagenModel.Model.Container.Dsf
+import MutagenModel.Model.Container.DsfFull
 import Driver.Util
 import Driver.FlacC
 namespace Driver
@@ -13,6 +14,18 @@ def dsfOp (a : Args) : String :=
   match a.str "op" with
   | "save" => ex (save (a.bytes "data") (a.nat "vmaj" 4) (a.bytes "frames") (padOf a))
   | "delete" => ex (delete (a.bytes "data"))
+  | "savex" =>
+    -- the total model; `ans`: what the padding callback answered (a number), or `keep` (the offered padding, at least 0)
+    let ans : Int → Int → Int := match (a.str "ans" "keep").toInt? with
+      | some n => fun _ _ => n
+      | none => fun p _ => if p < 0 then 0 else p
+    ex (saveX (a.bytes "data") (a.nat "vmaj" 4) (a.bytes "frames") ans)
+  | "load" =>
+    match load (a.bytes "data") with
+    | .error e => s!"err {e.name}"
+    | .ok .noTag => "ok notag"
+    | .ok .searchV1 => "ok searchv1"
+    | .ok (.tag b) => s!"ok tag={hexField b}"
   | "walk" =>
     -- what the three chunk loaders see: total size, pointer; whether fmt and data chunk load
     let f := a.bytes "data"
